@@ -7,7 +7,7 @@ from __future__ import annotations
 import re
 
 MN = re.compile(r"^([a-z]{3})(\.[bwl])?( .*)?$")
-COMMENT_WORDS = ["c", "TODO x:=1", "lda #1", "'quote", "*/ not a terminator here", "{", "}", "é",
+COMMENT_WORDS = ["c", "TODO x:=1", "lda #1", "'quote", "*/ not a terminator here", "/* not an opener here", "{", "}", "é",
                  # characters whose upper/lower-case forms have another length or are ASCII letters
                  "\u0130LK ADIM", "gro\u1e9e stra\u00dfe", "\u01c5 \ufb03", "273 \u212a / 1 \u212b", "\U0001d400 nop", "\u03a3\u03c2 lda"]
 
@@ -99,7 +99,7 @@ def relayout(lines, rng, mnemonics, files=None):
         elif r < 0.25:
             out.append(" " * rng.randrange(0, 4) + "; " + rng.choice(COMMENT_WORDS))
         elif r < 0.32:
-            out.append(rng.choice(["/* block */", "/* \u0130 */", "/* multi\nline */", "/* * stars * */", "/* x := 9 */", "/** doc **/", "/***/", "/**** x ****/", "/**/", "/* a * / b */"]))
+            out.append(rng.choice(["/* block */", "/* \u0130 */", "/* see /* below */", "/* /* */", "/*/* x */", "/* a /* b\nc */", "/* multi\nline */", "/* * stars * */", "/* x := 9 */", "/** doc **/", "/***/", "/**** x ****/", "/**/", "/* a * / b */"]))
         indent = rng.choice(["", "", "  ", "\t", "    "])
         trail = rng.choice(["", "", " ", "  "])
         eol = ""
